@@ -207,6 +207,8 @@ func dumpExpr(b *strings.Builder, e Expr) {
 		fmt.Fprintf(b, "(str %q)", v.V)
 	case *Var:
 		fmt.Fprintf(b, "(id %q)", v.Name)
+	case *RawStr:
+		fmt.Fprintf(b, "(str %q)", v.Val)
 	case *Grp:
 		dumpExpr(b, v.E)
 	case *Bin:
